@@ -132,6 +132,8 @@ pub struct Behav {
     pub rendezvous: AtomicUsize,
     pub runs: AtomicU64,
     pub setups: AtomicU64,
+    /// calls of the system's own (overridden) `System::setup`
+    pub sys_setups: AtomicU64,
     pub disposes: AtomicU64,
     pub counter: AtomicU64,
     pub seen: AtomicU64,
@@ -371,6 +373,13 @@ impl<'a> System<'a> for HSys {
     }
     fn accessor<'b>(&'b self) -> AccessorCow<'a, 'b, Self> {
         AccessorCow::Ref(&self.acc)
+    }
+    fn setup(&mut self, world: &mut World) {
+        // an overridden `System::setup` (what a user system with its own setup logic has); it
+        // then does what the default does
+        self.acc.shared.behav[self.acc.tag].sys_setups.fetch_add(1, SeqCst);
+        self.acc.shared.lifecycle.lock().unwrap().push(('U', self.acc.tag));
+        <Data as DynamicSystemData>::setup(&self.acc, world)
     }
     fn dispose(self, _: &mut World) {
         self.acc.shared.behav[self.acc.tag].disposes.fetch_add(1, SeqCst);
